@@ -8,7 +8,7 @@ import vlib
 import worlds
 import worldgen
 
-ASSUMPTIONS = ["'identical tree' is demanded when no torrent's export file can serve as a candidate for another torrent (no content shared between torrents): then no piece becomes available only through the run's own writes"]
+ASSUMPTIONS = ["'identical tree' is demanded when no torrent's export file can serve as a candidate for another torrent (no content shared between torrents) and oracles.determined holds: no piece can become available only through a transient state of a file the run itself writes"]
 
 
 def presentations(w, rng):
@@ -48,7 +48,7 @@ def correspondence(ctx):
                 findings.append({"scenario": base["sc"].ident(), "violated_clause": "the result differs between presentations of the same world: %r" % kinds, "world": runprops.describe_world(base["w"])})
             continue
         distinct_hashes = len(set(t.info_hash for t in base["w"].torrents)) == len(base["w"].torrents)
-        shared = any(f.content == g.content and f.length > 0 for a in base["w"].torrents for b in base["w"].torrents if a is not b for f in a.files for g in b.files if not f.pad and not g.pad and f.length == g.length)
+        shared = not all(oracles.determined(oracles.Ctx(r["w"], r["rr"], r["ce"])) for r in rs) or any(f.content == g.content and f.length > 0 for a in base["w"].torrents for b in base["w"].torrents if a is not b for f in a.files for g in b.files if not f.pad and not g.pad and f.length == g.length)
         t0 = tree_of(base["rr"])
         for r in rs[1:]:
             if tree_of(r["rr"]) != t0 and not shared and base["rr"].result == "ok":
